@@ -220,7 +220,12 @@ def check_index(w: World, slot_idx: int, probe_dids=(), probe_data=()):
                 rec2(c)
 
         rec2(b)
-        for d in dids:
+        # (a sample: each branch lookup walks the whole branch)
+        falsy = [d for d in below if not d]
+        multi = [d for d in below if d and len(below[d]) > 1][:3]
+        rest = [d for d in below if d and len(below[d]) == 1][:3]
+        d_sample = falsy + multi + rest + [d for d in dids if d not in below][:3]
+        for d in d_sample:
             exp = below.get(d, [])
             got = b.find_all(data_id=d)
             if not same_set(got, exp):
@@ -235,7 +240,7 @@ def check_index(w: World, slot_idx: int, probe_dids=(), probe_data=()):
                 if len(sub) != k or any(all(x is not y for y in exp) for x in sub):
                     fail(f"node.find_all(data_id=, max_results={k}) returns {len(sub)} of "
                          f"{len(exp)} carriers below the node", "node-lookup/max_results")
-        for obj in seen_data.values():
+        for obj in list(seen_data.values())[:8]:
             try:
                 d = mt.rule(obj)
             except TypeError:
